@@ -6,7 +6,7 @@ import ast
 
 from ..index import AnalysisError
 from ..cfg import CFG, walk_no_nested, iter_stmts
-from .common import visitor_transformer, check_field_flow, construct_of, cls_construct
+from .common import visitor_transformer, check_field_flow, construct_of, cls_construct, check_changed_flag
 
 MOD = "jaqalpaq.core.algorithm.expand_macros"
 BLOCK = "jaqalpaq.core.block.BlockStatement"
@@ -107,16 +107,23 @@ def run(ctx, rep):
                     continue
                 tests = fl.control_tests(n)
                 need = {"parallel": False, "subcircuit": False}
+                blk = arg.value  # the block being dissolved
                 for t in tests:
                     ids, _ = fl.depends(t)
                     for m in walk_no_nested(f.node):
                         if id(m) in ids and isinstance(m, ast.Attribute) and m.attr in need:
+                            # the annotation must be read on the dissolved block itself
+                            if isinstance(blk, ast.Name) and isinstance(m.value, ast.Name) and m.value.id != blk.id:
+                                continue
                             need[m.attr] = True
                 missing = [k for k, v in need.items() if not v]
                 if missing:
                     rep.violation("C04.2", cons, f"splice guard does not depend on {', '.join(missing)} of the block being dissolved: a {'subcircuit ' if 'subcircuit' in missing else ''}block of the parent's kind loses its annotation", loc)
                 else:
                     rep.ok("C04.2", cons, "guard depends on parallel and subcircuit", loc)
+
+    for tr in (tr_e, tr_r):
+        check_changed_flag(ctx, rep, "C04.2", tr)
 
     # ------------------------------------------------------------ C04.3 / C04.4
     rep.rule("C04.3", "an argument-count comparison guarding a raise dominates the construction of the replacer", floor=1)
